@@ -7,6 +7,7 @@ reset
 addacct k value expiry state bkey optx opidx hint tx ver
 submit n state unfilled units min isBid tier extras
 stage id tx feeOk <orders> <omods> <accts> <amods> <matches>
+delorder n
 updorder n <mods>          updorders <ns> <modss>          updacct k <mods>
 complete | discard | reopen | spend
 acctspend k <expiry|multisig|unknown> tx height
@@ -109,11 +110,19 @@ def obsStr (db : DB) : String :=
   let o := joinWith ";" (obsOrderRange.map fun k =>
     match lookup k db.orders with | some v => ordStr (k, v) | none => s!"{k}!")
   let P := match pendingBatchSnapshot db with | .ok s => snapStr s | .error e => "!" ++ errName e
-  let S := joinOr "|" (db.snaps.map snapStr)
+  let S := match getLocalBatchSnapshots db with
+    | .ok l => joinOr "|" (l.map snapStr)
+    | .error e => "!" ++ errName e
   let G := joinWith "|" (obsBatchRange.map fun i =>
-    match getLocalBatchSnapshot db i with | .ok s => snapStr s | .error _ => s!"{i}!")
+    match getLocalBatchSnapshot db i with
+    | .ok s => snapStr s
+    | .error .noOrder => s!"{i}!noOrder"
+    | .error _ => s!"{i}!")
   let E := joinWith "|" (obsOrderRange.map fun n =>
-    match getOrderEvents db n with | .ok es => s!"{n}:" ++ joinOr ";" (es.map evtStr) | .error _ => s!"{n}!")
+    match getOrderEvents db n with
+    | .ok es => s!"{n}:" ++ joinOr ";" (es.map evtStr)
+    | .error .noOrder => s!"{n}!"
+    | .error _ => s!"{n}!norefs")
   s!"A={A} a={a} O={O} o={o} P={P} S={S} G={G} E={E}"
 
 def callStr : Call → String
@@ -169,6 +178,10 @@ def drvStep (db : DB) (args : List String) : DB × String :=
       doOp db (.stage { batchId := id, batchTx := tx, feeOk := fee, orders := os, orderMods := oms,
                         accounts := as, acctMods := ams, matched := mt })
     | _, _, _, _, _, _, _, _ => (db, "bad-op")
+  | ["delorder", n] =>
+    match n.toNat? with
+    | some n => doOp db (.deleteOrder n)
+    | none => (db, "bad-op")
   | ["updorder", n, ms] =>
     match n.toNat?, modList? omod? ms with
     | some n, some ms => doOp db (.updateOrder n ms)
